@@ -36,6 +36,9 @@ func v17StatusConsumer(ch chan ClientUpdate, stop chan struct{}) {
 	for {
 		select {
 		case u := <-ch:
+			if u.tag == "TRIGGERRATE" {
+				vAdd32(&v17RateMsgs, 1)
+			}
 			json.Marshal(u.state)
 		case <-stop:
 			return
@@ -250,6 +253,67 @@ func v17FreeRun(x *vexp.X, sc *v17Scenario) (*vhook.Sched, func()) {
 		close(stop)
 		clientMessageChan = v17OrigCMC
 		v17Work = fmt.Sprintf("blocks=%d", runtime.VerifLoad32(&src.processed))
+		if src.numberWrittenTicker != nil {
+			src.numberWrittenTicker.Stop()
+			src.writingState.externalTriggerTicker.Stop()
+			src.writingState.dataDropTicker.Stop()
+		}
+	}
+}
+
+// v17RateMsgs counts the TRIGGERRATE messages the status consumer has taken (race-invisible accesses only)
+var v17RateMsgs uint32
+
+// data timeline: the blocks of a running source need not be contiguous in data time. A source that drops data or
+// stalls delivers a block whose frame number and time stamp lie seconds after the previous block's end, so that one
+// pass of the core loop covers several of the broker's one-second reporting periods and hands the status thread
+// several messages in a row (in the other scenarios every block covers 24 ms and follows the previous one directly:
+// at most one periodic message per pass). Here blocks 1 and 3 come after 3.5 s and 2.2 s of lost data time.
+func v17Timeline(x *vexp.X, sc *v17Scenario) (*vhook.Sched, func()) {
+	src := v11New("idle", 0)
+	src.pulses = true
+	src.keepPub = true
+	src.gapBefore = map[int]time.Duration{1: 3500 * time.Millisecond, 3: 2200 * time.Millisecond}
+	ctl := v11NewControl(src)
+	stop := make(chan struct{})
+	status := make(chan ClientUpdate, 64)
+	ctl.clientUpdates = status
+	ctl.mapServer.clientUpdates = status
+	if v17OrigCMC == nil {
+		v17OrigCMC = clientMessageChan
+	}
+	clientMessageChan = status
+	PubRecordsChan = make(chan []*DataRecord, 64)
+	PubSummariesChan = make(chan []*DataRecord, 64)
+	runtime.VerifStore32(&v17RateMsgs, 0)
+	go v17StatusConsumer(status, stop)
+	go v17RecordConsumer(PubRecordsChan, false, stop)
+	go v17RecordConsumer(PubSummariesChan, true, stop)
+	client := func() {
+		if err := v11Start(ctl, src); err != nil {
+			panic("harness: Start failed: " + err.Error())
+		}
+		var ok bool
+		ctl.ConfigureTriggers(&FullTriggerState{ChannelIndices: []int{0}, TriggerState: TriggerState{EdgeTrigger: true, EdgeRising: true, EdgeLevel: 100}}, &ok)
+		ctl.AddGroupTriggerCoupling(GroupTriggerState{Connections: map[int][]int{0: {1}}}, &ok)
+		for i := 0; i < 4; i++ {
+			src.demandBlock()
+			<-src.doneCh
+		}
+		d := ""
+		ctl.SendAllStatus(&d, &ok)
+		ctl.Stop(&d, &ok)
+	}
+	s := vhook.Run(x, vhook.Options{MaxSteps: 1500, Names: []string{"client"}, DelayBound: true}, client)
+	return s, func() {
+		// the source has stopped: let the status consumer take what is still queued, then count
+		for t0 := time.Now(); len(status) > 0 && time.Since(t0) < time.Second; {
+			runtime.Gosched()
+		}
+		close(stop)
+		clientMessageChan = v17OrigCMC
+		// 5.7 s of data time in four blocks: at least five reporting periods end, at least two of them within one block
+		v17Work = fmt.Sprintf("blocks=%d rate-messages>=5:%v", runtime.VerifLoad32(&src.processed), runtime.VerifLoad32(&v17RateMsgs) >= 5)
 		if src.numberWrittenTicker != nil {
 			src.numberWrittenTicker.Stop()
 			src.writingState.externalTriggerTicker.Stop()
@@ -599,10 +663,11 @@ func TestVerifC17(t *testing.T) {
 	if r.Thorough() {
 		pb = 2
 	}
-	r.SetBound(fmt.Sprintf("race-detector build; all interleavings (all select alternatives) with at most %d preemptions (life cycle) / at most as many scheduling deviations of any kind (thread choice or select alternative) from the canonical schedule (delay bounding, pipeline) of: (pipeline) one client issuing record-length, trigger, group-trigger, write-control, raw-block (two in a row), comment (write and read), state-label, send-all and stop requests against a running two-channel source with pulses, LJH2.2+LJH3 writing, group trigger, record/summary/status consumers; (free-running pipeline) the same source delivering blocks at the pace of an independent feeder thread (the client lets at least one block go by after each group of requests, with nothing but its requests flowing from it to the data path) while the client configures edge-multi / auto / edge triggers, couples channels, starts and stops LJH2.2 writing, reads the comment, loads and replaces a projector model and asks for all status; (life cycle) Start with two concurrent Stop callers; (Abaco pipeline) real Start/readerMainLoop/getNextBlock/distributeData/CoreLoop with a scripted packet producer (two groups, one lagging, one lost packet, external-trigger packets in between), clock thread and Stop; (Lancero pipeline) real StartRun/launchLanceroReader/getNextBlock/ConfigureMixFraction/distributeData/CoreLoop with a scripted card (2x2 geometry, 20 frames in 5 reads, external-trigger bits, one lost word so that the reader re-aligns), clock thread, one mix request and Stop", pb))
+	r.SetBound(fmt.Sprintf("race-detector build; all interleavings (all select alternatives) with at most %d preemptions (life cycle) / at most as many scheduling deviations of any kind (thread choice or select alternative) from the canonical schedule (delay bounding, pipeline) of: (pipeline) one client issuing record-length, trigger, group-trigger, write-control, raw-block (two in a row), comment (write and read), state-label, send-all and stop requests against a running two-channel source with pulses, LJH2.2+LJH3 writing, group trigger, record/summary/status consumers; (free-running pipeline) the same source delivering blocks at the pace of an independent feeder thread (the client lets at least one block go by after each group of requests, with nothing but its requests flowing from it to the data path) while the client configures edge-multi / auto / edge triggers, couples channels, starts and stops LJH2.2 writing, reads the comment, loads and replaces a projector model and asks for all status; (pipeline, data timeline) the same source with edge trigger and group coupling delivering four blocks of which the second and the fourth come after 3.5 s and 2.2 s of lost data time (frame number and time stamp jump ahead together), so that one pass of the core loop ends several of the broker's one-second reporting periods and queues several TRIGGERRATE messages for the status consumer, then send-all and stop; (life cycle) Start with two concurrent Stop callers; (Abaco pipeline) real Start/readerMainLoop/getNextBlock/distributeData/CoreLoop with a scripted packet producer (two groups, one lagging, one lost packet, external-trigger packets in between), clock thread and Stop; (Lancero pipeline) real StartRun/launchLanceroReader/getNextBlock/ConfigureMixFraction/distributeData/CoreLoop with a scripted card (2x2 geometry, 20 frames in 5 reads, external-trigger bits, one lost word so that the reader re-aligns), clock thread, one mix request and Stop", pb))
 	scs := []*v17Scenario{
 		{name: "pipeline", run: v17Pipeline, bound: pb}, // delay-bounded (see vhook.Options.DelayBound)
 		{name: "pipeline-freerun", run: v17FreeRun, bound: pb},
+		{name: "pipeline-timeline", run: v17Timeline, bound: pb},
 		{name: "lifecycle", run: v17LifeCycle, bound: pb},
 		{name: "abaco-pipeline", run: v17AbacoPipeline, bound: pb},
 		{name: "lancero-pipeline", run: v17LanceroPipeline, bound: pb},
